@@ -11,6 +11,27 @@ def main(argv):
     tier = os.environ.get('VERIF_TIER', tier)
     seed = int(os.environ.get('VERIF_SEED', '0') or 0)
     sys.setrecursionlimit(20000)
+    # watchdog (set by vcheck): a run that exceeds its wall-clock limit kills its pool workers and exits with 137, so that vcheck can
+    # start it once more instead of a hung run sitting there (a fork-related hang was observed once).  The process group is left alone:
+    # whoever started the check can still stop all of it.
+    wd = int(os.environ.get('PYVC_WATCHDOG', '0') or 0)
+    if wd > 0:
+        import signal
+
+        def _bark(signum, frame):
+            try:
+                sys.stderr.write(f'ENGINE-NOTE: {prop} {tier} exceeded {wd} s; killing the run\n')
+                sys.stderr.flush()
+                import multiprocessing as _mp
+                for ch in _mp.active_children():
+                    try:
+                        ch.kill()
+                    except Exception:
+                        pass
+            finally:
+                os._exit(137)
+        signal.signal(signal.SIGALRM, _bark)
+        signal.alarm(wd)
     # every import of soupsieve in this process and its workers comes from the tree under check (default /repo)
     repo = os.environ.get('VERIF_REPO', '/repo')
     if repo not in sys.path:
